@@ -372,10 +372,14 @@ impl Lib {
                                 self.last_fill[h] = 0;
                                 Res::Bytes(buf)
                             }
-                            Err(e) => io_err(e),
+                            Err(e) => {
+                                self.last_fill[h] = 0;
+                                io_err(e)
+                            }
                         }
                     }
                     Op::HReadFull { n, .. } => {
+                        self.last_fill[h] = 0;
                         let mut buf = vec![0u8; *n];
                         let mut got = 0usize;
                         while got < *n {
@@ -390,14 +394,18 @@ impl Lib {
                         self.last_fill[h] = 0;
                         Res::Bytes(buf)
                     }
-                    Op::HFillBuf { .. } => match s.fill_buf() {
-                        Ok(b) => {
-                            let v = b.to_vec();
-                            self.last_fill[h] = v.len();
-                            Res::Bytes(v)
+                    Op::HFillBuf { .. } => {
+                        // a failed fill_buf hands out nothing that could be consumed
+                        self.last_fill[h] = 0;
+                        match s.fill_buf() {
+                            Ok(b) => {
+                                let v = b.to_vec();
+                                self.last_fill[h] = v.len();
+                                Res::Bytes(v)
+                            }
+                            Err(e) => io_err(e),
                         }
-                        Err(e) => io_err(e),
-                    },
+                    }
                     Op::HConsume { n, .. } => {
                         let c = (*n).min(self.last_fill[h]);
                         s.consume(c);
